@@ -6,9 +6,9 @@
    literal of s satoshi:  int64(math.Round(RN(s/10^8) * 1e8)), evaluated in IEEE-754 binary64
    (executable model over Coq's SpecFloat, Model/C15.v).  Theorems that mention [credited] rest on
    C15_sat_exact and therefore on the standard library's real-number axioms; the others are closed. *)
-From Coq Require Import List ZArith NArith Bool String Reals.
+From Coq Require Import List ZArith NArith Bool String Reals Permutation.
 Import ListNotations.
-From SygmaV Require Import Lib.Hex Model.C15 Proofs.C15 Proofs.C15_Payload Proofs.C15_Real Proofs.C15_Seq.
+From SygmaV Require Import Lib.Hex Model.C15 Proofs.C15 Proofs.C15_Payload Proofs.C15_Real Proofs.C15_Seq Proofs.C15_Events.
 Local Open Scope Z_scope.
 
 (* ------------------------------------------------------------------------------------------ *)
@@ -204,6 +204,47 @@ Theorem C15_tx_ok_none : forall outs rs faddr obs n,
   tx_ok outs rs faddr obs n = true -> obs = NoMsg.
 Proof. exact tx_ok_none. Qed.
 Print Assumptions C15_tx_ok_none.
+
+(* ------------------------------------------------------------------------------------------ *)
+(* Round 5 - HandleEvents, the entry point the listener calls for every block: the messages that
+   ProcessDeposits made of the block ([ms], one entry per transaction) are grouped by destination domain
+   and every group is sent on the message channel by a goroutine that is handed ITS group.  A transaction
+   is treated as a deposit only if its message arrives: what arrives, all batches together, is exactly the
+   messages of the block - none lost, none twice (for every block, whatever the destinations) ... *)
+Theorem C15_events_no_loss_no_dup : forall ms,
+  Permutation (List.concat (sent_batches ms)) (filter is_msg ms).
+Proof. exact sent_batches_perm. Qed.
+Print Assumptions C15_events_no_loss_no_dup.
+
+Theorem C15_events_arrives_iff : forall ms m,
+  In m (List.concat (sent_batches ms)) <-> (In m ms /\ is_msg m = true).
+Proof. exact sent_batches_in. Qed.
+Print Assumptions C15_events_arrives_iff.
+
+(* ... and every batch is for one destination domain *)
+Theorem C15_events_one_dest_per_batch : forall ms b,
+  In b (sent_batches ms) -> exists d, forall x, In x b -> msg_dest x = Some d.
+Proof. exact sent_batches_one_dest. Qed.
+Print Assumptions C15_events_one_dest_per_batch.
+
+(* NOT the code: goroutines that read the loop variable after the loop (go 1.21: one variable per loop) all
+   send the batch of the last destination - with two destinations one deposit never arrives and the other one
+   arrives twice.  (The run judges what arrives with [seq_ok]: the lost deposit is a paying transaction
+   without a message, the second copy is a message without a transaction of its own.) *)
+Theorem C15_events_shared_var_refuted :
+  exists ms m m', In m ms /\ is_msg m = true /\ ~ In m (List.concat (shared_var_batches ms)) /\
+                  List.concat (shared_var_batches ms) = [m'; m'].
+Proof. exact shared_var_refuted. Qed.
+Print Assumptions C15_events_shared_var_refuted.
+
+(* Non-vacuity: three deposits for two destinations between a transaction that is none. *)
+Example C15_events_nonvacuous :
+  let a := Msg 2 5 [1%N] 10 [] in let b := Msg 3 6 [1%N] 20 [] in let c := Msg 2 7 [1%N] 30 [] in
+  sent_batches [a; NoMsg; b; c] = [[a; c]; [b]] /\
+  shared_var_batches [a; NoMsg; b; c] = [[b]; [b]] /\
+  (* as the run sees the second: a and c never arrive, b arrives twice *)
+  seq_ok ([], ""%string) [OBlock 1 [] true [] ""] = false.
+Proof. vm_compute. repeat split. Qed.
 
 (* Non-vacuity of the history judge: it rejects a history in which an underpaying transaction
    lowered the threshold (snapshot differs, then a 1-satoshi fee is accepted) and accepts the
